@@ -562,6 +562,7 @@ func checkC04(p *Program, r *Report) {
 	checkInitStatesWidth(p, r, models)
 	checkOwnCellIndex(p, r, models, "R04.9", true)
 	checkStateRowLength(p, r, models)
+	checkFreshParameterShapes(p, r, models)
 	// R04.7: Run touches nothing else — no package-level writes from anything a Run reaches
 	{
 		r.Rule("R04.7", "Run touches nothing else: no function reachable from any wrapper's Run writes a package-level variable (cells would read each other's intermediate values)")
@@ -1266,6 +1267,16 @@ func (w *wrapperCtx) isExtentOfDim(n ssa.Value, arr ssa.Value, dim int64, lastDi
 				}
 			case "Len":
 				a := callArgs(x.Common())
+				// Len(arr.NDims()-1): the last dimension of the same array
+				if lastDim {
+					if bo, isBo := a[0].(*ssa.BinOp); isBo && bo.Op == token.SUB {
+						if c1, isC := constInt(bo.Y); isC && c1 == 1 {
+							if nc, isCall := bo.X.(*ssa.Call); isCall && callName(nc.Common()) == "NDims" && w.sameArray(recvOf(nc.Common()), arr) {
+								continue
+							}
+						}
+					}
+				}
 				d, ok := constInt(a[0])
 				if !ok || d != dim {
 					return fmt.Sprintf("Len(%v) is not the extent of the indexed dimension %d", a[0], dim)
